@@ -177,8 +177,10 @@ def injector_pair(kind, frame, rng_seed):
             return inj(data, col(2), 3, random_state=3)
         raise KeyError(kind)
 
+    last = {}
+
     def run(data, pr, used=False):
-        inj = CLS[kind]()
+        inj = last["inj"] = CLS[kind]()
         if used:
             # the injector object has been used before, on the OTHER container type: what it returns now must not depend on that
             other = a.copy() if frame else pd.DataFrame(a.copy(), columns=names)
@@ -213,6 +215,15 @@ def injector_pair(kind, frame, rng_seed):
         flags.append("container type changed")
     if pb != expected_arg or [type(k) for k in pb] != [type(k) for k in expected_arg]:
         flags.append("ARGUMENT DICT MODIFIED")
+    # the SAME injector object serves a further, equally shaped input: what it returned before is the caller's now - it must neither be handed out
+    # again nor be written to
+    d_b = digest(out_b)
+    np.random.seed((rng_seed + 2) % (2 ** 32))
+    out_c = call(last["inj"], mk(), dict(pa), col)
+    if out_c is out_b:
+        flags.append("RESULT IS THE OBJECT RETURNED BY AN EARLIER CALL")
+    if digest(out_b) != d_b:
+        flags.append("RESULT OF AN EARLIER CALL OVERWRITTEN")
     ob = out_b.to_numpy() if isinstance(out_b, pd.DataFrame) else out_b
     cb = caller.to_numpy() if isinstance(caller, pd.DataFrame) else caller
     if np.shares_memory(ob, cb):
